@@ -49,6 +49,9 @@ import logging  # noqa: E402
 logging.disable(logging.CRITICAL)   # pymap logs unhandled sieve errors
 
 
+OWN_CPU_BUDGET = True     # this module arms SIGVTALRM itself
+
+
 class CpuBudget(BaseException):
     pass
 
@@ -167,6 +170,33 @@ def _wire_case(case: dict[str, Any], out: CaseOut) -> None:
                 out.fail('no-quiescence',
                          f'{data[:200]!r}: the loop never went idle')
                 return
+            if case.get('eof'):
+                # the client disappears right here, possibly in the middle
+                # of a line or of a literal
+                out.label('eof-right-after-data')
+                if not conn.done:
+                    conn.eof()
+                    try:
+                        sim.settle(advance=1.0)
+                    except NoQuiescence:
+                        out.fail('no-quiescence-after-eof', f'{data[:200]!r}')
+                        return
+                if isinstance(conn.exception, CpuBudget):
+                    raise CpuBudget().with_traceback(
+                        conn.exception.__traceback__)
+                if _serverbug(bytes(conn.writer.all), conn) or (
+                        conn.done and conn.exception is not None):
+                    _judge(out, data, bytes(conn.writer.all), conn, state)
+                elif not conn.done:
+                    out.fail('connection-survives-eof',
+                             f'after {data[:200]!r} and EOF from the client '
+                             f'the connection task is still running')
+                r = by.conn.cmd(b'by9 NOOP\r\n')
+                if b'by9 OK' not in r and not out.failures:
+                    out.fail('bystander-not-served',
+                             f'after {data[:200]!r} + EOF another '
+                             f'connection got {r!r} for NOOP')
+                return
             _judge(out, data, got, conn, state)
             # further lines on the same connection (reaches the consecutive-
             # BAD limit and multi-step effects such as CREATE then LIST)
@@ -201,6 +231,24 @@ def _wire_case(case: dict[str, Any], out: CaseOut) -> None:
                 out.fail('bystander-not-served',
                          f'after {data[:200]!r} another connection got '
                          f'{r!r} for NOOP')
+            # the client goes away, wherever the server is in its reading:
+            # the connection must end (and not spin)
+            if not conn.done and not out.failures:
+                conn.eof()
+                try:
+                    sim.settle(advance=1.0)
+                except NoQuiescence:
+                    out.fail('no-quiescence-after-eof', f'{data[:200]!r}')
+                    return
+                if isinstance(conn.exception, CpuBudget):
+                    raise CpuBudget().with_traceback(
+                        conn.exception.__traceback__)
+                if not conn.done:
+                    out.fail('connection-survives-eof',
+                             f'after {data[:200]!r} and EOF from the client '
+                             f'the connection task is still running')
+                else:
+                    out.label('eof-ended-connection')
     _with_budget(go, out, f'wire {data[:200]!r}')
 
 
@@ -265,6 +313,16 @@ def _judge(out: CaseOut, data: bytes, got: bytes, conn: Any,
         out.label('no-newline')
         return
     if not answered:
+        from harness.pparse import _read_line, Incomplete
+        try:
+            _read_line(data, 0)
+        except Incomplete:
+            pass
+        else:
+            # a complete line (every announced literal byte and the final
+            # CRLF were sent) and not a single byte in reply
+            out.fail('line-not-answered', desc)
+            return
         # the server may legitimately still be reading (a literal whose
         # count reaches past the bytes sent): finishing the line must then
         # produce the answer
@@ -292,6 +350,16 @@ def _judge(out: CaseOut, data: bytes, got: bytes, conn: Any,
     last = [ln for ln in lines if ln][-1] if any(lines) else b''
     if last.startswith(b'+'):
         out.label('awaiting-continuation')
+        return
+    from harness.pparse import _read_line, Incomplete
+    pos = 0
+    try:
+        while pos < len(data):
+            _, pos = _read_line(data, pos)
+    except Incomplete:
+        # a later line of the data announced a literal that is still open:
+        # whatever is sent next is literal data, not a command
+        out.label('data-ends-inside-a-literal')
         return
     r = conn.cmd(b'\r\n')
     r = conn.cmd(b'zz9 NOOP\r\n')
@@ -355,7 +423,7 @@ def _message_case(case: dict[str, Any], out: CaseOut) -> None:
             conn = c.conn
             got = conn.cmd(b'a1 APPEND INBOX {%d+}\r\n' % len(msg) + msg
                            + b'\r\n')
-            _judge_simple(out, b'APPEND', got, conn, msg)
+            _judge_simple(out, b'APPEND', got, conn, msg, b'a1 ')
             if conn.done or b'a1 OK' not in got:
                 out.label('append-not-ok')
                 return
@@ -431,6 +499,16 @@ def _sieve_case(case: dict[str, Any], out: CaseOut) -> None:
                 r = conn.cmd(b'AUTHENTICATE "PLAIN" "%s"\r\n' % blob)
                 if not r.startswith(b'OK'):
                     raise RuntimeError(f'sieve login failed: {r!r}')
+            def eof_check() -> None:
+                # the client goes away: the connection must end, not spin
+                conn.eof()
+                sim.settle(advance=1.0)
+                if isinstance(conn.exception, CpuBudget):
+                    raise CpuBudget().with_traceback(
+                        conn.exception.__traceback__)
+                if not conn.done:
+                    out.fail('sieve-connection-survives-eof', desc)
+
             got = conn.cmd(data)
             desc = f'sieve state={case["state"]} sent={data[:300]!r} ' \
                    f'got={got[-200:]!r}'
@@ -446,11 +524,19 @@ def _sieve_case(case: dict[str, Any], out: CaseOut) -> None:
             if b'\n' not in data:
                 return
             if got == b'':
-                # waiting for literal data is the only silent state allowed
-                if not re.search(rb'\{\d+\+?\}\r?\n', data):
+                # waiting for announced literal data is the only silent
+                # state allowed
+                from harness.pparse import _read_line, Incomplete
+                try:
+                    _read_line(data, 0)
+                    complete = not re.search(rb'\{\d+\}\r?\n', data)
+                except Incomplete:
+                    complete = False
+                if complete:
                     out.fail('sieve-line-not-answered', desc)
-                else:
-                    out.label('awaiting-literal')
+                    return
+                out.label('awaiting-literal')
+                eof_check()
                 return
             if re.fullmatch(rb'("[^"]*"|\{\d+\}\r\n.*)\r\n', got, re.S):
                 out.label('sasl-challenge')   # continuation of AUTHENTICATE
@@ -461,6 +547,8 @@ def _sieve_case(case: dict[str, Any], out: CaseOut) -> None:
             by = sim.connect('sieve')
             if not by.take().endswith(b'\r\n'):
                 out.fail('sieve-bystander-not-served', desc)
+                return
+            eof_check()
     _with_budget(go, out, f'sieve {data[:200]!r}')
 
 
@@ -735,9 +823,10 @@ def strategy(tier: str) -> Any:
                                                 b'AGFsaWNlAP8=', b'='])),
                      max_size=3)
     more = st.lists(line, max_size=6)
-    wire = st.tuples(line, st.integers(0, 2), conts, more).map(
+    wire = st.tuples(line, st.integers(0, 2), conts, more,
+                     st.sampled_from([False, False, False, True])).map(
         lambda t: {'kind': 'wire', 'data': t[0], 'state': t[1],
-                   'conts': t[2], 'more': t[3]})
+                   'conts': t[2], 'more': t[3], 'eof': t[4]})
     message = st.tuples(gen.any_message(),
                         st.sampled_from(['dict', 'dict', 'dict',
                                          'maildir'])).map(
